@@ -491,6 +491,155 @@ func main() {
 		die("errorHandler: unrecognised fallback")
 	}
 
+	// the exporters' eight push functions are the same code up to the signal's names: every signal goes through
+	// processError (gRPC) resp. export(…, its partial-success handler) (HTTP)
+	sigWords := map[string][]string{
+		"pushTraces":   {"ptraceotlp", "ptrace", "traceExporter", "tracesURL", "tracesPartialSuccessHandler", "NewExportRequestFromTraces", "RejectedSpans", "dropped_spans", "Traces"},
+		"pushMetrics":  {"pmetricotlp", "pmetric", "metricExporter", "metricsURL", "metricsPartialSuccessHandler", "NewExportRequestFromMetrics", "RejectedDataPoints", "dropped_data_points", "Metrics"},
+		"pushLogs":     {"plogotlp", "plog", "logExporter", "logsURL", "logsPartialSuccessHandler", "NewExportRequestFromLogs", "RejectedLogRecords", "dropped_log_records", "Logs"},
+		"pushProfiles": {"pprofileotlp", "pprofile", "profileExporter", "profilesURL", "profilesPartialSuccessHandler", "NewExportRequestFromProfiles", "RejectedProfiles", "dropped_profiles", "Profiles"},
+	}
+	for _, file := range []*ast.File{xf, hf} {
+		ref := ""
+		for _, name := range []string{"pushTraces", "pushMetrics", "pushLogs", "pushProfiles"} {
+			fd := funcDecl(file, name)
+			if len(fd.Type.Params.List) == 2 && len(fd.Type.Params.List[1].Names) == 1 {
+				// the payload parameter has a per-signal name (td, md, ld, …): rename it in place (the AST is not reused)
+				pn := fd.Type.Params.List[1].Names[0].Name
+				ast.Inspect(fd.Body, func(n ast.Node) bool {
+					if id, ok := n.(*ast.Ident); ok && id.Name == pn {
+						id.Name = "§p"
+					}
+					return true
+				})
+			}
+			str := exprStringNode(fd.Body)
+			for i, w := range sigWords[name] {
+				str = strings.ReplaceAll(str, w, fmt.Sprintf("§%d", i))
+			}
+			if ref == "" {
+				ref = str
+			} else if str != ref {
+				die("%s differs structurally from pushTraces in %s", name, file.Name.Name)
+			}
+		}
+		key := "processError("
+		if file == hf {
+			key = "export("
+		}
+		if strings.Count(ref, key) != 1 {
+			die("push functions of %s do not call %s exactly once", file.Name.Name, key)
+		}
+	}
+
+	// stages in front of the receiver's handlers (confighttp / configgrpc): statuses and wrapping order
+	chf := parse(filepath.Join(repo, "config/confighttp/confighttp.go"))
+	authStatuses := map[int]bool{}
+	ast.Inspect(funcDecl(chf, "authInterceptor"), func(n ast.Node) bool {
+		if se, ok := n.(*ast.SelectorExpr); ok {
+			if v, ok := constOf(se); ok {
+				authStatuses[v] = true
+			}
+		}
+		return true
+	})
+	if len(authStatuses) != 1 {
+		die("confighttp authInterceptor: expected exactly one status constant, found %v", authStatuses)
+	}
+	authStatusHTTP := 0
+	for v := range authStatuses {
+		authStatusHTTP = v
+	}
+	ccf := parse(filepath.Join(repo, "config/confighttp/compression.go"))
+	var serveHTTP *ast.FuncDecl
+	for _, d := range ccf.Decls {
+		if fd, ok := d.(*ast.FuncDecl); ok && fd.Name.Name == "ServeHTTP" && fd.Recv != nil {
+			serveHTTP = fd
+		}
+	}
+	if serveHTTP == nil {
+		die("confighttp decompressor.ServeHTTP not found")
+	}
+	encodingStatus := -1
+	ast.Inspect(serveHTTP, func(n ast.Node) bool {
+		if call, ok := n.(*ast.CallExpr); ok {
+			if se, ok := call.Fun.(*ast.SelectorExpr); ok && se.Sel.Name == "errHandler" && len(call.Args) == 4 {
+				encodingStatus = mustConst(call.Args[3], "decompressor.ServeHTTP")
+			}
+		}
+		return true
+	})
+	if encodingStatus < 0 {
+		die("confighttp decompressor.ServeHTTP: errHandler status not found")
+	}
+	// ToServer: `handler = X(handler, …)` — a later wrap runs EARLIER; expected: decompressor, then max-body, then auth (outermost)
+	posOf := map[string]int{}
+	var toServer *ast.FuncDecl
+	for _, d := range chf.Decls {
+		if fd, ok := d.(*ast.FuncDecl); ok && fd.Name.Name == "ToServer" {
+			toServer = fd
+		}
+	}
+	if toServer == nil {
+		die("confighttp ToServer not found")
+	}
+	for i, st := range toServer.Body.List {
+		ast.Inspect(st, func(n ast.Node) bool {
+			if call, ok := n.(*ast.CallExpr); ok {
+				if id, ok := call.Fun.(*ast.Ident); ok {
+					switch id.Name {
+					case "httpContentDecompressor", "maxRequestBodySizeInterceptor", "authInterceptor":
+						if _, dup := posOf[id.Name]; dup {
+							die("ToServer: %s applied twice", id.Name)
+						}
+						posOf[id.Name] = i
+					}
+				}
+			}
+			return true
+		})
+	}
+	if len(posOf) != 3 {
+		die("ToServer: expected httpContentDecompressor, maxRequestBodySizeInterceptor and authInterceptor, found %v", posOf)
+	}
+	authOutermost := posOf["authInterceptor"] > posOf["maxRequestBodySizeInterceptor"] && posOf["maxRequestBodySizeInterceptor"] > posOf["httpContentDecompressor"]
+	// the receiver hands confighttp its own errorHandler (so rejections are OTLP Status bodies)
+	usesErrHandler := false
+	ast.Inspect(parse(filepath.Join(repo, "receiver/otlpreceiver/otlp.go")), func(n ast.Node) bool {
+		if call, ok := n.(*ast.CallExpr); ok {
+			if se, ok := call.Fun.(*ast.SelectorExpr); ok && se.Sel.Name == "WithErrorHandler" && len(call.Args) == 1 {
+				if id, ok := call.Args[0].(*ast.Ident); ok && id.Name == "errorHandler" {
+					usesErrHandler = true
+				}
+			}
+		}
+		return true
+	})
+	if !usesErrHandler {
+		die("otlpreceiver: ToServer is not given confighttp.WithErrorHandler(errorHandler)")
+	}
+	cgf := parse(filepath.Join(repo, "config/configgrpc/configgrpc.go"))
+	authCodes := map[int]bool{}
+	for _, fn := range []string{"authUnaryServerInterceptor", "authStreamServerInterceptor"} {
+		ast.Inspect(funcDecl(cgf, fn), func(n ast.Node) bool {
+			if se, ok := n.(*ast.SelectorExpr); ok {
+				if id, ok := se.X.(*ast.Ident); ok && id.Name == "codes" {
+					if v, ok := constOf(se); ok {
+						authCodes[v] = true
+					}
+				}
+			}
+			return true
+		})
+	}
+	if len(authCodes) != 1 {
+		die("configgrpc auth interceptors: expected exactly one gRPC code, found %v", authCodes)
+	}
+	authCodeGrpc := 0
+	for v := range authCodes {
+		authCodeGrpc = v
+	}
+
 	// the four signal receivers: `if num == 0 { return New…Response(), nil }` precedes the consumer call
 	for _, sig := range []string{"logs", "metrics", "trace", "profiles"} {
 		f := parse(filepath.Join(repo, "receiver/otlpreceiver/internal", sig, "otlp.go"))
@@ -552,6 +701,8 @@ func main() {
 		methodStatus, ctypeStatus, readBodyStatus, unmarshalStatus, exportStatus)
 	b.WriteString("/-- `errorHandler` (auth / decompressor rejections): a request without a usable Content-Type still gets the decided status (else a fixed 500) -/\n")
 	fmt.Fprintf(&b, "def errorHandlerKeepsStatus : Bool := %v\n\n", errorHandlerKeepsStatus)
+	b.WriteString("/-- stages in front of the handlers: confighttp `authInterceptor` status, decompressor rejection status, configgrpc auth interceptors' code;\n`ToServer` wraps decompressor, then max-body, then auth (auth runs first) -/\n")
+	fmt.Fprintf(&b, "def authStatusHttp : Nat := %d\ndef encodingStatus : Nat := %d\ndef authCodeGrpc : Nat := %d\ndef authOutermost : Bool := %v\n\n", authStatusHTTP, encodingStatus, authCodeGrpc, authOutermost)
 	b.WriteString("end OtelVerif.Gen.OtlpTables\n")
 	fmt.Print(b.String())
 }
